@@ -29,6 +29,13 @@ theorem collect_joinWith {s : Toks} (hs : collect s = []) (ts : List Toks) :
 @[simp] theorem collect_rpar (r : Toks) : collect (rpar :: r) = collect r := rfl
 theorem collect_comma : collect comma = [] := rfl
 
+@[simp] theorem collect_wrapOperand (e : Expr) (t : Toks) : collect (wrapOperand e t) = collect t := by
+  unfold wrapOperand; split <;> simp [collect_append, collect]
+
+theorem map_insertAt {α β} (f : α → β) (k : Nat) (x : α) (l : List α) :
+    (insertAt k x l).map f = insertAt k (f x) (l.map f) := by
+  simp [insertAt, List.map_take, List.map_drop]
+
 theorem partsList_eq (es : List Expr) : Spec.partsList es = (es.map Spec.parts).flatten := by
   induction es with
   | nil => simp [Spec.partsList]
@@ -69,13 +76,13 @@ theorem collect_argTok (hv : hasVisitor .arg = true) (a : Str) : collect (argTok
 macro "cunfold" h:ident : tactic =>
   `(tactic| simp only [Expr.all, allOpt, allList, allOptList, allKeywords, allDict, allComps, allArgs,
       completeLocalAll, totalLocal, visitorsLocal, completeLocal, Expr.kind,
-      Bool.and_eq_true, List.all_cons, List.all_nil, Keyword.named, DictItem.keyed, Comp.sync, Args.plain,
+      Bool.and_eq_true, List.all_cons, List.all_nil, Comp.sync,
       Bool.true_and, Bool.and_true, and_assoc, and_true, true_and, Bool.not_eq_true', Bool.not_eq_eq_eq_not,
       Bool.not_true, List.isEmpty_iff] at $h:ident)
 
 macro "punfoldg" h:ident hg:ident : tactic =>
   `(tactic| simp only [print, printOpt, printList, printDict, printCmp, printKeywords, printComps, printDefaults,
-      printSig, $hg:ident, if_true, ↓reduceIte,
+      printSig, printOps, printKwDefaults, $hg:ident, if_true, ↓reduceIte,
       bind, Option.bind_eq_some_iff, pure, Option.some.injEq, exists_and_left, exists_eq_left'] at $h:ident)
 
 macro "cclose" : tactic =>
@@ -124,7 +131,7 @@ theorem collect_print (hs : SymbolsAgree) : ∀ (e : Expr) (t : Toks), e.all com
       subst hsym; cclose
   | .boolOp op vs, t, hg, h => by
       cunfold hg; punfoldg h hg; obtain ⟨tv, hv, h⟩ := h
-      have h1 := collect_printList hs vs tv (by simp [hg]) hv
+      have h1 := collect_printOps hs vs tv (by simp [hg]) hv
       split at h
       · punfoldg h hg; subst h
         rename_i hlen
@@ -151,7 +158,7 @@ theorem collect_print (hs : SymbolsAgree) : ∀ (e : Expr) (t : Toks), e.all com
       have := collect_print hs o to (by simp [hg]) ho; cclose
   | .lambda a b, t, hg, h => by
       cunfold hg; punfoldg h hg; obtain ⟨ts, hs', tb, hb, rfl⟩ := h
-      have := collect_printSig hs a ts (by simp [hg]) (by simp [hg]) (by simp [hg, Args.plain]) hs'
+      have := collect_printSig hs a ts (by simp [hg]) (by simp [hg]) hs'
       have := collect_print hs b tb (by simp [hg]) hb
       simp [collect_append, collect_joinWith collect_comma, Spec.parts, collect, *]
   | .tuple es, t, hg, h => by
@@ -220,11 +227,22 @@ theorem collect_printList (hs : SymbolsAgree) : ∀ (es : List Expr) (ts : List 
       simp only [allList, Bool.and_eq_true] at hg
       punfoldg h hg; obtain ⟨t, ht, tr, hr, rfl⟩ := h
       simp [collect_print hs e t hg.1 ht, collect_printList hs es tr hg.2 hr]
+theorem collect_printOps (hs : SymbolsAgree) : ∀ (es : List Expr) (ts : List Toks),
+    allList completeLocalAll es = true → printOps es = some ts → ts.map collect = es.map Spec.parts
+  | [], ts, _, h => by simp only [printOps, Option.some.injEq] at h; subst h; rfl
+  | e :: es, ts, hg, h => by
+      simp only [allList, Bool.and_eq_true] at hg
+      punfoldg h hg; obtain ⟨t, ht, tr, hr, rfl⟩ := h
+      simp [collect_print hs e t hg.1 ht, collect_printOps hs es tr hg.2 hr]
 theorem collect_printDict (hs : SymbolsAgree) : ∀ (items : List DictItem) (ts : List Toks),
     allDict completeLocalAll items = true → printDict items = some ts →
     (ts.map collect).flatten = Spec.partsDict items
   | [], ts, _, h => by simp only [printDict, Option.some.injEq] at h; subst h; rfl
-  | .mk none v :: r, ts, _, h => by simp [printDict] at h
+  | .mk none v :: r, ts, hg, h => by
+      simp only [allDict, Bool.and_eq_true] at hg
+      punfoldg h hg; obtain ⟨tv, hv, tr, hr, rfl⟩ := h
+      have := collect_print hs v tv hg.1.2 hv
+      have := collect_printDict hs r tr hg.2 hr; cclose
   | .mk (some k) v :: r, ts, hg, h => by
       simp only [allDict, Bool.and_eq_true] at hg
       punfoldg h hg; obtain ⟨tk, hk, tv, hv, tr, hr, rfl⟩ := h
@@ -246,9 +264,9 @@ theorem collect_printKeywords (hs : SymbolsAgree) : ∀ (ks : List Keyword) (ts 
   | [], ts, _, h => by simp only [printKeywords, Option.some.injEq] at h; subst h; rfl
   | .mk arg v :: ks, ts, hg, h => by
       simp only [allKeywords, Bool.and_eq_true] at hg
-      punfoldg h hg; obtain ⟨a, ha, tv, hv, tr, hr, rfl⟩ := h
-      subst ha
-      have := collect_print hs v tv hg.1 hv; have := collect_printKeywords hs ks tr hg.2 hr; cclose
+      punfoldg h hg; obtain ⟨tv, hv, tr, hr, rfl⟩ := h
+      have := collect_print hs v tv hg.1 hv; have := collect_printKeywords hs ks tr hg.2 hr
+      cases arg <;> cclose
 theorem collect_printComps (hs : SymbolsAgree) : ∀ (gs : List Comp) (t : Toks),
     allComps completeLocalAll gs = true → hasVisitor .comprehension = true → gs.all Comp.sync = true →
     printComps gs = some t → collect t = Spec.partsComps gs
@@ -258,35 +276,59 @@ theorem collect_printComps (hs : SymbolsAgree) : ∀ (gs : List Comp) (t : Toks)
       simp only [List.all_cons, Comp.sync, Bool.and_eq_true, Bool.not_eq_true'] at hsy
       punfoldg h hv; obtain ⟨tt, ht, ti, hi, tf, hf, tr, hr, rfl⟩ := h
       have := collect_print hs target tt hg.1.1.1 ht; have := collect_print hs iter ti hg.1.1.2 hi
-      have h3 := collect_printList hs ifs tf hg.1.2 hf
+      have h3 := collect_printOps hs ifs tf hg.1.2 hf
       have := collect_printComps hs gs tr hg.2 hv hsy.2 hr
       have := collect_ifs tf ifs h3
       simp [collect_append, collect, Spec.partsComps, hsy.1, *]
 theorem collect_printDefaults (hs : SymbolsAgree) (hv : hasVisitor .arg = true) : ∀ (as : List Str)
     (ds : List Expr) (ts : List Toks), allList completeLocalAll ds = true → printDefaults as ds = some ts →
-    (ts.map collect).flatten = Spec.partsDefaults as ds
+    ts.map collect = Spec.partsDefaults as ds
   | _, [], ts, _, h => by simp only [printDefaults, Option.some.injEq] at h; subst h; simp [Spec.partsDefaults]
   | [], _ :: _, ts, _, h => by simp only [printDefaults, Option.some.injEq] at h; subst h; simp [Spec.partsDefaults]
   | a :: as, d :: ds, ts, hg, h => by
       simp only [allList, Bool.and_eq_true] at hg
       punfoldg h hg; obtain ⟨td, hd, tr, hr, rfl⟩ := h
       have := collect_print hs d td hg.1 hd; have := collect_printDefaults hs hv as ds tr hg.2 hr
-      have := collect_argTok hv a; cclose
+      have := collect_argTok hv a
+      simp [collect_append, collect, Spec.partsDefaults, *]
+theorem collect_printKwDefaults (hs : SymbolsAgree) (hv : hasVisitor .arg = true) : ∀ (as : List Str)
+    (ds : List (Option Expr)) (ts : List Toks), allOptList completeLocalAll ds = true →
+    printKwDefaults as ds = some ts → (ts.map collect).flatten = Spec.partsKwDefaults as ds
+  | _, [], ts, _, h => by simp only [printKwDefaults, Option.some.injEq] at h; subst h; simp [Spec.partsKwDefaults]
+  | [], _ :: _, ts, _, h => by
+      simp only [printKwDefaults, Option.some.injEq] at h; subst h; simp [Spec.partsKwDefaults]
+  | a :: as, none :: ds, ts, hg, h => by
+      simp only [allOptList] at hg
+      punfoldg h hg; obtain ⟨tr, hr, rfl⟩ := h
+      have := collect_printKwDefaults hs hv as ds tr hg hr
+      have := collect_argTok hv a
+      simp [Spec.partsKwDefaults, *]
+  | a :: as, some d :: ds, ts, hg, h => by
+      simp only [allOptList, Bool.and_eq_true] at hg
+      punfoldg h hg; obtain ⟨td, hd, tr, hr, rfl⟩ := h
+      have := collect_print hs d td hg.1 hd
+      have := collect_printKwDefaults hs hv as ds tr hg.2 hr
+      have := collect_argTok hv a
+      simp [collect_append, collect, Spec.partsKwDefaults, *]
 theorem collect_printSig (hs : SymbolsAgree) : ∀ (a : Args) (ts : List Toks), allArgs completeLocalAll a = true →
-    hasVisitor .arg = true → a.plain = true → printSig a = some ts → (ts.map collect).flatten = Spec.partsArgs a
-  | .mk posonly args vararg kwonly kwDefaults kwarg defaults, ts, hg, hv, hp, h => by
+    hasVisitor .arg = true → printSig a = some ts → (ts.map collect).flatten = Spec.partsArgs a
+  | .mk posonly args vararg kwonly kwDefaults kwarg defaults, ts, hg, hv, h => by
       simp only [allArgs, Bool.and_eq_true] at hg
-      simp only [Args.plain, Bool.and_eq_true, List.isEmpty_iff] at hp
-      obtain ⟨rfl, rfl⟩ := hp
-      punfoldg h hg; obtain ⟨td, hd, rfl⟩ := h
-      have := collect_printDefaults hs hv _ defaults td hg.2 hd
-      have hmap : ∀ l : List Str, (l.map (collect ∘ argTok)).flatten = l := by
+      punfoldg h hg; obtain ⟨td, hd, tk, hk, rfl⟩ := h
+      have h1 := collect_printDefaults hs hv _ defaults td hg.2 hd
+      have h2 := collect_printKwDefaults hs hv kwonly kwDefaults tk hg.1 hk
+      have hmap : ∀ l : List Str, (l.map argTok).map collect = l.map fun a => [a] := by
         intro l; induction l with
         | nil => rfl
         | cons x r ih => simp [collect_argTok hv, ih]
-      have hkw : Spec.partsKwDefaults [] kwDefaults = [] := by cases kwDefaults <;> rfl
-      cases vararg <;> cases kwarg <;>
-        simp [Spec.partsArgs, hkw, Spec.optName, ← List.map_take, hmap, collect, *]
+      have hslash : collect [Tok.leaf ['/']] = [['/']] := rfl
+      simp only [Spec.partsArgs, List.map_append, List.flatten_append, h2]
+      congr 1; congr 1; congr 1
+      · split <;> simp [map_insertAt, hmap, h1, hslash, List.map_take]
+      · cases vararg with
+        | none => simp only []; split <;> simp [collect]
+        | some v => simp [collect]
+      · cases kwarg <;> simp [Spec.optName, collect]
 end
 
 end MakoModel.PyExpr
